@@ -156,6 +156,9 @@ func TestVerifC18Mux(t *testing.T) {
 			synctest.Test(t, func(t *testing.T) { c18MuxD1(t, res) })
 		case "muxd2":
 			c18MuxD2Parent(t, res)
+		case "rmux":
+			// relay phase behind the shared port (c18_relay_mux_test.go)
+			c18RelayMux(t, raw, res)
 		default:
 			t.Fatalf("unknown kind %q", c.K)
 		}
